@@ -10,7 +10,7 @@ from vf.spec import ALIASERS, AnyT, Coll, ObjectT, Program, Unspecified, canon
 PROP = "C05"
 SHARDS = {"quick": 8, "thorough": 16}
 TIME_CAP = {"quick": 70, "thorough": 900}
-REQUIRED = ["std_constructed_round_trips", "value_round_trips_default_no_copy", "value_round_trips", "json_round_trips", "dual_round_trips", "fixpoint_checks", "completion_checks", "programs", "std_programs", "aliaser_programs",
+REQUIRED = ["as_names_round_trips", "std_constructed_round_trips", "value_round_trips_default_no_copy", "value_round_trips", "json_round_trips", "dual_round_trips", "fixpoint_checks", "completion_checks", "programs", "std_programs", "aliaser_programs",
             "fields_set_programs", "discriminated_round_trips", "discriminated_families", "discriminated_roundtrips", "discriminated_class_checks"]
 RULE = ("bijective fragment of the C01 program space (no one-way conversion, serialized method, asymmetric skip, init=False / InitVar field, class-ambiguous union; exclude_* off) "
         "+ standard-library converted types (UUID, date/datetime/time, Decimal, bytes, Path, ip addresses, Pattern) + discriminated unions; values = images of model-valid data; "
@@ -322,10 +322,43 @@ def check_std_constructed(env):
                     env.violation(feats, {**wit, "back": back.brief()})
 
 
+def check_as_names(env):
+    """enums (de)serialized by member name through apischema.conversions.as_names, under an identity and a renaming aliaser"""
+    import enum
+    from typing import Dict, List, Optional
+    from apischema import deserialize, serialize
+    from apischema.conversions import as_names, reset_deserializers, reset_serializer
+    from apischema.utils import to_camel_case
+
+    for label, al in (("identity", None), ("camelCase", to_camel_case), ("upper", str.upper)):
+        E = enum.Enum("VfNamed", {"my_value": 1, "other": 2, "x_y_z": "s"})
+        harness.reset_all()
+        try:
+            as_names(E, al) if al else as_names(E)
+            for wrap_name, T, mk, un in (("bare", E, lambda v: v, lambda r: r), ("list", List[E], lambda v: [v], lambda r: r[0]), ("optional", Optional[E], lambda v: v, lambda r: r),
+                                         ("dict", Dict[str, E], lambda v: {"k": v}, lambda r: r["k"])):
+                for m in E:
+                    env.count("as_names_round_trips")
+                    env.case("as_names", label, wrap_name, m.name)
+                    s = harness.call(serialize, T, mk(m))
+                    wit = {"enum": "Enum('VfNamed', {'my_value': 1, 'other': 2, 'x_y_z': 's'})", "aliaser": label, "type": wrap_name, "member": m.name, "serialized": s.brief()}
+                    if s.kind != "ok":
+                        env.violation({"kind": "serialize-exception", "family": "as_names", "exc": s.exc or "ValidationError"}, wit)
+                        continue
+                    back = harness.call(deserialize, T, json.loads(json.dumps(s.value)))
+                    if back.kind != "ok" or un(back.value) is not m:
+                        env.violation({"kind": "round-trip-differs", "family": "as_names", "aliaser": "identity" if al is None else "renaming", "exc": back.exc}, {**wit, "back": back.brief()})
+        finally:
+            reset_deserializers(E)
+            reset_serializer(E)
+    harness.reset_all()
+
+
 def run(env):
     harness.tag_errors(True)
     if env.shard == 0:
         check_std_constructed(env)
+        check_as_names(env)
     from vf import disc
     disc.run_family(env, disc.check_c05, env.n(96, 4000))  # discriminated-union families first (their own budget)
     rng = env.rng
